@@ -324,17 +324,19 @@ pub struct TrkCfg {
     pub constraints: Option<Vec<(usize, f32)>>,
     pub vis: VisOpts,
     pub kalman_w: (f32, f32),
+    /// period of the store-wide collection of expired tracks (None: the library's default, 100)
+    pub auto_waste: Option<usize>,
 }
 
 impl TrkCfg {
     pub fn new(kind: Kind) -> TrkCfg {
-        TrkCfg { kind, shards: 1, voting_shards: 1, history: 1, max_idle: 2, pos: Pos::Iou(0.3), min_conf: 0.05, constraints: None, vis: VisOpts::default(), kalman_w: (1.0 / 20.0, 1.0 / 160.0) }
+        TrkCfg { kind, shards: 1, voting_shards: 1, history: 1, max_idle: 2, pos: Pos::Iou(0.3), min_conf: 0.05, constraints: None, vis: VisOpts::default(), kalman_w: (1.0 / 20.0, 1.0 / 160.0), auto_waste: None }
     }
     pub fn json(&self) -> serde_json::Value {
         let v = &self.vis;
         serde_json::json!({"kind":self.kind.name(),"shards":self.shards,"voting_shards":self.voting_shards,"history":self.history,"max_idle":self.max_idle,
             "positional":match self.pos { Pos::Iou(t) => serde_json::json!({"iou":t}), Pos::Maha => serde_json::json!("mahalanobis") },
-            "min_conf":self.min_conf,"constraints":self.constraints,"kalman_weights":[self.kalman_w.0,self.kalman_w.1],
+            "min_conf":self.min_conf,"constraints":self.constraints,"kalman_weights":[self.kalman_w.0,self.kalman_w.1],"auto_waste_period":self.auto_waste,
             "visual":{"metric":match v.metric { Vis::Euclid(t) => serde_json::json!({"euclidean":t}), Vis::Cosine(t) => serde_json::json!({"cosine":t}) },
                 "min_votes":v.min_votes,"min_track_len":v.min_track_len,"max_obs":v.max_obs,"q_use":v.q_use,"q_collect":v.q_collect,"min_area":v.min_area,"own_use":v.own_use,"own_collect":v.own_collect}})
     }
@@ -358,6 +360,7 @@ impl TrkCfg {
         c.min_conf = f(&j["min_conf"])?;
         c.constraints = j["constraints"].as_array().map(|a| a.iter().filter_map(|e| Some((e[0].as_u64()? as usize, f(&e[1])?))).collect());
         c.kalman_w = (f(&j["kalman_weights"][0])?, f(&j["kalman_weights"][1])?);
+        c.auto_waste = j["auto_waste_period"].as_u64().map(|x| x as usize);
         let v = &j["visual"];
         c.vis = VisOpts {
             metric: if v["metric"]["euclidean"].is_number() { Vis::Euclid(f(&v["metric"]["euclidean"])?) } else { Vis::Cosine(f(&v["metric"]["cosine"])?) },
@@ -422,6 +425,14 @@ fn sort_dets(d: &[Det]) -> Vec<(Universal2DBox, Option<i64>)> {
 
 impl AnyTrk {
     pub fn new(c: &TrkCfg) -> AnyTrk {
+        let mut t = Self::build(c);
+        if let Some(p) = c.auto_waste {
+            t.set_auto_waste(p);
+        }
+        t
+    }
+
+    fn build(c: &TrkCfg) -> AnyTrk {
         match c.kind {
             Kind::Sort => AnyTrk::Sort(Sort::new(c.shards, c.history, c.max_idle, c.pos_type(), c.min_conf, c.stc(), c.kalman_w.0, c.kalman_w.1)),
             Kind::BatchSort => AnyTrk::BSort(BSortT::new(c.shards, c.voting_shards, c.history, c.max_idle, c.pos_type(), c.min_conf, c.stc(), c.kalman_w.0, c.kalman_w.1)),
